@@ -78,3 +78,21 @@ pub fn slice_view<'a>(v: &View<'a>, o: usize, l: usize) -> View<'a> {
         other => other.clone(),
     }
 }
+
+/// the top-level bitmaps of a view (validity; for Boolean also the values) cut to their first `keep` bytes:
+/// what a window with a bit offset looks like when the buffer behind it is too short
+pub fn truncate_bits<'a>(v: &View<'a>, keep: usize) -> View<'a> {
+    use View as V;
+    let cut = |b: &Option<BitsWithOffset<'a>>| b.map(|b| BitsWithOffset { offset: b.offset, data: &b.data[..keep.min(b.data.len())] });
+    match v {
+        V::Boolean(x) => V::Boolean(BooleanView { len: x.len, validity: cut(&x.validity), values: BitsWithOffset { offset: x.values.offset, data: &x.values.data[..keep.min(x.values.data.len())] } }),
+        V::Int32(x) => V::Int32(PrimitiveView { validity: cut(&x.validity), values: x.values }),
+        V::Int64(x) => V::Int64(PrimitiveView { validity: cut(&x.validity), values: x.values }),
+        V::Float64(x) => V::Float64(PrimitiveView { validity: cut(&x.validity), values: x.values }),
+        V::Utf8(x) => V::Utf8(BytesView { validity: cut(&x.validity), offsets: x.offsets, data: x.data }),
+        V::LargeUtf8(x) => V::LargeUtf8(BytesView { validity: cut(&x.validity), offsets: x.offsets, data: x.data }),
+        V::List(x) => V::List(ListView { validity: cut(&x.validity), offsets: x.offsets, meta: x.meta.clone(), elements: x.elements.clone() }),
+        V::Struct(x) => V::Struct(StructView { len: x.len, validity: cut(&x.validity), fields: x.fields.clone() }),
+        other => other.clone(),
+    }
+}
